@@ -8,7 +8,12 @@ Each signal (logs, traces, metrics) implements `EventEncoder` and `ReceiverEncod
 Each protocol (protobuf and JSON) implements [`RawEncoder`]. This manages the difference between trace/span id encoding between them.
 */
 
+#[cfg(not(emit_rs_emit_verif))]
 use std::{cell::RefCell, collections::HashMap, fmt, ops::ControlFlow};
+
+// Under simulation the iteration order of maps (and with it the bytes of encoded requests) must not vary between processes
+#[cfg(emit_rs_emit_verif)]
+use std::{cell::RefCell, collections::BTreeMap as HashMap, fmt, ops::ControlFlow};
 
 use bytes::Buf;
 use sval_derive::Value;
